@@ -349,6 +349,7 @@ def run(prog, rep, tier):
         raise AnalysisError('GEOM-stale-mask: the mask uses of possible_couplings were not found')
     if check_derived_refresh(prog, rep) < 2:
         raise AnalysisError('GEOM-derived-refresh: writers of HelicalLattice._N_cells not found')
+    check_box_corner(prog, rep)
     if check_size_rounding(prog, rep) < 1:
         raise AnalysisError('GEOM-size-rounding: the row count of mps2lat_values_masked not found')
     if check_exact_div(prog, rep) < 2:
@@ -577,3 +578,37 @@ def check_size_rounding(prog, rep):
                               'negative indices collide with rows of other sites' %
                               key_text(st)[:70], st.lineno)
     return n
+
+
+def check_box_corner(prog, rep):
+    """GEOM-box-corner: multi_coupling_shape describes the box spanned by the operator offsets by
+    its extent (max - min along each direction) and by the translation of its lower-left corner.
+    Both have to be derived from the SAME minimum: the corner is the very `min` that is subtracted
+    in the extent (clipping it, e.g. to <= 0, moves the box whenever all offsets are positive)."""
+    m = prog.module(LAT)
+    f = m.func('Lattice.multi_coupling_shape')
+    nf = inline_temps(f, keep=('shape', 'shift_strength'))
+    ext = None
+    corner = None
+    for st in stmts_of(nf):
+        if isinstance(st, ast.Assign) and isinstance(st.targets[0], ast.Subscript):
+            tgt = unparse(st.targets[0].value)
+            subs = [b for b in ast.walk(st.value) if isinstance(b, ast.BinOp) and
+                    isinstance(b.op, ast.Sub) and 'np.max' in unparse(b.left) and
+                    'np.min' in unparse(b.right)]
+            if subs and ext is None:
+                ext = (subs[0], tgt)
+            elif not subs and ext is not None and tgt != ext[1] and corner is None:
+                corner = st
+    if ext is None or corner is None:
+        raise AnalysisError('multi_coupling_shape: extent / corner of the box not found')
+    same = unparse(corner.value) == unparse(ext[0].right)
+    rep.instance('GEOM-box-corner', {'extent': unparse(ext[0]), 'corner': unparse(corner.value),
+                                     'same_minimum': same})
+    if not same:
+        rep.violation('GEOM-box-corner', m, 'Lattice.multi_coupling_shape', 'corner-not-min',
+                      'the box has the extent `%s` but its corner is `%s`, not the minimum `%s` '
+                      'the extent is measured from: possible_multi_couplings places the box '
+                      'wrongly in directions where every operator has a positive offset' %
+                      (unparse(ext[0]), unparse(corner.value), unparse(ext[0].right)), corner.lineno)
+    return 1
